@@ -417,9 +417,9 @@ class Oracle:
             return rng.choice([1, "x", 1.5, True, [1, "a"], {"k": 1}])
         return None
 
-    def resolve(self, tname, fname, ftype, path):
+    def resolve(self, tname, fname, ftype, path, args=None):
         """('ret', value) | ('raise', msg, is_graphql, ext)"""
-        rng = self.rng_for("r", tuple(path), tname, fname)
+        rng = self.rng_for("r", tuple(path), tname, fname, repr(sorted((args or {}).items(), key=repr)))
         kind = self.faults.get(tuple(path))
         if kind:
             msg = USER_PREFIX + "/".join(map(str, path))
@@ -522,7 +522,7 @@ async def build_engine(s, schema_name, oracle_ref, rec, cfg=None):
         @Resolver("%s.%s" % (tname, fname), **kw)
         async def r(parent, args, ctx, info):
             path = info.path.as_list()
-            out = oracle_ref[0].resolve(tname, fname, ftype, path)
+            out = oracle_ref[0].resolve(tname, fname, ftype, path, args)
             entry = {"path": path, "ptype": tname, "field": fname, "source": parent, "args": dict(args),
                      "ctx_ok": ctx is oracle_ref[1] if len(oracle_ref) > 1 else True}
             if out[0] == "ret":
